@@ -517,6 +517,19 @@ impl Monitors {
             }
             Obs::Stream(ks) => {
                 self.agents.entry(a).or_default().stream_keys = ks.clone();
+                // C11: the snapshot covers every key that has a value or is locked by a client guard when the
+                // call is made (judged against the harness' own shadow map and guard table)
+                if !seg.mid_cs && !seg.snap.gone {
+                    let mut must: BTreeSet<Key> = self.shadow.keys().copied().collect();
+                    must.extend(self.guards.values().filter(|g| g.live && !g.dying).map(|g| g.key));
+                    let missing: Vec<Key> = must.into_iter().filter(|k| !ks.contains(k)).collect();
+                    if !missing.is_empty() {
+                        self.hit(
+                            "C11.stream",
+                            format!("stream {}: its snapshot {:?} misses keys {:?} which have a value or are locked", a, ks, missing),
+                        );
+                    }
+                }
             }
             Obs::Count(n) => {
                 if *n != seg.pre.entries.len() {
